@@ -1,6 +1,6 @@
 (* C09 — Rules hold on every reported row and fire on their schedule. *)
 From Coq Require Import ZArith Reals List Bool Arith Sorted.
-From BS Require Import Base.Arith Model.Term Model.Propensity Model.Interface Model.Rules Model.Random Model.SSA Proofs.RuleProofs Proofs.RuleCount.
+From BS Require Import Base.Arith Model.Term Model.Propensity Model.Interface Model.Rules Model.Random Model.SSA Proofs.RuleProofs Proofs.RuleCount Proofs.RuleRows Model.Queue.
 Import ListNotations.
 
 (* Expression evaluation depends only on the species the expression reads (any arithmetic). *)
@@ -68,7 +68,20 @@ Theorem C09_dt_rules_once_per_row :
          apps s u m (ssa_init s ts pos) = (length (ss_rows stm) + (if ss_rule_step stm then 0 else 1))%nat).
 Proof. exact dt_rules_once_per_row. Qed.
 
-(* The counting statements for the delay / volume / deterministic / lineage loops are decided by the stream
+(* The delay-capable and the volume-aware loops report only rule-applied states as well (any arithmetic, stream, fuel, grid,
+   queue, volume model): every row is the species part of a rule pass -- volume rules reading the current volume -- taken
+   before the firing / delivery / volume step of that iteration. *)
+Theorem C09_delay_rows_are_rule_applied :
+  forall F (A : Arith F) pi2 (s : sim F) fuel gfuel q ts u pos st,
+  dssa_simulate A pi2 fuel gfuel s q ts u pos = Done st -> Forall (rule_applied_v A s) (ds_rows st).
+Proof. exact @dssa_rows_rule_applied. Qed.
+Theorem C09_volume_rows_are_rule_applied :
+  forall F (A : Arith F) (s : sim F) fuel vm V0 ts u pos st,
+  vssa_simulate A fuel s vm V0 ts u pos = Done st -> Forall (rule_applied_v A s) (vs_rows st).
+Proof. exact @vssa_rows_rule_applied. Qed.
+
+(* The counting statements for the delay / volume / deterministic / lineage loops (the lineage single-cell loop's rows are
+   covered by Props/C19.v: C19_cell_rows_were_simulated) are decided by the stream
    replay and the harness oracle (counter, ODE and scheduled rules); not mechanised (C09_partial). *)
 
 Print Assumptions C09_eval_frame.
@@ -79,3 +92,5 @@ Print Assumptions C09_dt_rule_fires_iff_rule_step.
 Print Assumptions C09_repeat_rule_always_fires.
 Print Assumptions C09_scheduled_rule_fires_at.
 Print Assumptions C09_dt_rules_once_per_row.
+Print Assumptions C09_delay_rows_are_rule_applied.
+Print Assumptions C09_volume_rows_are_rule_applied.
